@@ -23,9 +23,15 @@ Inductive ccase := H (ops : list (action * obs * nat * nat)) (extra : nat).
 Definition list_eqb (a b : list nat) : bool :=
   Nat.eqb (length a) (length b) && forallb (fun xy => Nat.eqb (fst xy) (snd xy)) (combine a b).
 
+Definition count_nat (x : nat) (l : list nat) : nat := length (filter (Nat.eqb x) l).
+Definition perm_eqb (a b : list nat) : bool :=
+  Nat.eqb (length a) (length b) && forallb (fun x => Nat.eqb (count_nat x a) (count_nat x b)) a.
+
 Definition obs_eqb (a b : obs) : bool :=
   match a, b with
-  | OP t1 n1, OP t2 n2 => list_eqb t1 t2 && Nat.eqb n1 n2
+  (* the consumers one Put reaches are compared as a multiset: the property says who gets the envelope
+     (exactly once each), not in which order the relay walks its subscriptions *)
+  | OP t1 n1, OP t2 n2 => perm_eqb t1 t2 && Nat.eqb n1 n2
   | OSok, OSok | OSrc, OSrc | OScc, OScc | OPanic, OPanic | OU, OU | OD, OD => true
   | OX b1, OX b2 => Bool.eqb b1 b2
   | OV t1 u1, OV t2 u2 => Nat.eqb t1 t2 && Nat.eqb u1 u2
